@@ -35,7 +35,9 @@ def quote_brief(s):
 
 
 def run(ctx):
-    ctx.prove("ZwVerif.Props.C19", THEOREMS)
+    ctx.prove("ZwVerif.Props.C19", THEOREMS + ["ZwVerif.C19Order." + t for t in
+              ["combos_row_major", "main_iterates_row_major", "go_spec", "numLE_inj", "allIdx_length", "bump_eq"]],
+              extra_targets=["ZwVerif.Props.C19Order"])
     im = ctx.impl("plain")
     rng = ctx.rng
     tests = os.path.join(common.REPO, "tests")
